@@ -159,7 +159,10 @@ Example C05_ex_rewrite_sound :
   /\ fst (ieval None frag_body ([([110%N], 5%Z)], 0%Z)) = IVal (-30)
   /\ fst (ieval (Some [110%N]) (subst_reg [110%N] frag_body) ([], 5%Z)) = IVal (-30)
   /\ snd (snd (ieval (Some [110%N]) (subst_reg [110%N] frag_body) ([], 5%Z))) = (-30)%Z.
-Proof. split; [split; [reflexivity | intros q _; reflexivity] | vm_compute; repeat split; reflexivity]. Qed.
+Proof.
+  split; [split; [reflexivity | intros q Hq; unfold lookup, fst; rewrite (bytes_eqb_sym [110%N] q), Hq; reflexivity]
+         | vm_compute; repeat split; reflexivity].
+Qed.
 
 Print Assumptions regfile_balanced.
 Print Assumptions rewrite_sound.
